@@ -148,6 +148,7 @@ type rewriter struct {
 	err     error
 	commMark map[ast.Stmt]bool
 	callsHit map[string]bool
+	optional map[string]bool // call replacements that need not occur in the file ("?pkg.Func" in the configuration)
 }
 
 func instrument(path string, fc FileCfg) ([]byte, error) {
@@ -156,7 +157,15 @@ func instrument(path string, fc FileCfg) ([]byte, error) {
 	if err != nil {
 		return nil, err
 	}
-	rw := &rewriter{fset: fset, fc: fc, commMark: map[ast.Stmt]bool{}, callsHit: map[string]bool{}}
+	rw := &rewriter{fset: fset, fc: fc, commMark: map[ast.Stmt]bool{}, callsHit: map[string]bool{}, optional: map[string]bool{}}
+	for k, v := range fc.Calls {
+		if strings.HasPrefix(k, "?") {
+			delete(fc.Calls, k)
+			fc.Calls[k[1:]] = v
+			rw.optional[k[1:]] = true
+		}
+	}
+	rw.fc = fc
 
 	// imports
 	for _, imp := range f.Imports {
@@ -202,7 +211,7 @@ func instrument(path string, fc FileCfg) ([]byte, error) {
 		return nil, rw.err
 	}
 	for k := range fc.Calls {
-		if !rw.callsHit[k] {
+		if !rw.callsHit[k] && !rw.optional[k] {
 			return nil, fmt.Errorf("call %s not found (was it renamed?)", k)
 		}
 	}
